@@ -117,6 +117,11 @@ Inductive gval :=
 | VCursorQ (c : N)                              (* a batch cursor (res.BatchData), by id *)
 | VErrTag (name : string)                       (* a sentinel error with its identity (errors.Is) *)
 | VKey (k : Includer.mkey) | VKeyPrefix
+(* orchestration code (publishBlockInternal, trySyncNextBlock): a collaborator whose methods answer from a script —
+   the k-th call of method m returns the k-th entry of m's list — and whose calls are logged in order; and an
+   uninterpreted value built by a constructor name (a hash, a signature, the result of a pure method on one) *)
+| VOrc (name : string) (answers : list (string * list gval))
+| VTok (name : string) (args : list gval)
 | VUnit.
 
 Definition env := list (string * gval).
@@ -233,6 +238,7 @@ Definition sel (v : gval) (f : string) : res gval :=
   | VObj _ fields => match lookup fields f with Some v => RRet v | None => RFail ("field " ++ f) end
   | VBatchQ b => if f =? "Transactions" then RRet (VTxsQ b) else RFail ("Batch." ++ f)
   | VRec fields => match lookup fields f with Some v => RRet v | None => RFail ("field " ++ f) end
+  | VTok _ _ => RRet (VTok ("." ++ f) [v])
   | VIdsResult ids ts =>
       if f =? "IDs" then RRet (VIds ids 0) else
       if f =? "Timestamp" then RRet (VN ts) else RFail ("GetIDsResult." ++ f)
@@ -270,6 +276,29 @@ Definition meth (v : gval) (m : string) (args : list gval) : res gval :=
   | VZ t, [VZ u] =>
       if m =? "After" then RRet (VBool (u <? t)%Z) else       (* t.After(u) *)
       if m =? "Before" then RRet (VBool (t <? u)%Z) else RFail ("Time." ++ m)
+  | VZ t, [VZero ty] =>                                        (* nothing is before the zero time.Time *)
+      if (m =? "Before") && (ty =? "time.Time") then RRet (VBool false) else RFail ("Time." ++ m)
+  | VUnit, [] => if m =? "Err" then RRet (VErr true) else RFail ("ctx." ++ m)    (* ctx.Err() after ctx.Done() fired *)
+  | VTok _ _, _ => RRet (VTok m (v :: args))                   (* a pure method of an uninterpreted value *)
+  | VOrc _ answers, _ =>                                       (* read in an expression: the first answer, not logged *)
+      match lookup answers m with
+      | Some (x :: _) => RRet x
+      | _ => RFail ("oracle method " ++ m)
+      end
+  | VRec fields, [u] =>                                        (* BatchData embeds time.Time: batchData.Before(t) *)
+      if m =? "Before" then
+        match lookup fields "Time", u with
+        | Some (VZ t), VZ u' => RRet (VBool (t <? u')%Z)
+        | Some (VZ _), VZero _ => RRet (VBool false)
+        | _, _ => RFail "Before"
+        end
+      else if m =? "SetCustomVerifier" then RRet VUnit
+      else RFail ("method " ++ m ++ " of a record")
+  | VRec fields, [] =>                                         (* a struct given with the results of its getters: field "M()" *)
+      match lookup fields (m ++ "()") with
+      | Some x => RRet x
+      | None => RFail ("method " ++ m ++ " of a record")
+      end
   | VOPub (Some p), [VPayload h; VSig s] =>
       if m =? "Verify" then RRet (VTuple [VBool (verify_header p h s); VErr false]) else RFail ("PubKey." ++ m)
   | VOPub (Some p), [VDataBytes d; VDSig s] =>
@@ -339,6 +368,7 @@ Definition builtin (globals : env) (f : string) (args : list gval) : res gval :=
     | [VTxs (Some l)] => RRet (VN (N.of_nat (length l)))
     | [VTxs None] => RRet (VN 0)
     | [VList l] => RRet (VN (llen l))
+    | [VTok _ _] => RRet (VTok "len" args)
     | [VTxsQ _] => RRet (VN 1)                 (* a VTxsQ is a NON-EMPTY transaction list, by id; its length only matters as "not 0" *)
     | _ => RFail "len"
     end
@@ -411,6 +441,21 @@ Definition builtin (globals : env) (f : string) (args : list gval) : res gval :=
     | [VId h] => RRet (VTuple [VN h; VUnit; VNil])
     | _ => RFail "SplitID"
     end
+  else if f =? "$ctxdone" then                                 (* select { case <-ctx.Done(): ...; default: } *)
+    match lookup globals "$cancelled" with
+    | Some (VBool b) => RRet (VBool b)
+    | _ => RRet (VBool false)
+    end
+  else if f =? "$wait" then                                    (* errgroup.Wait(): nil iff every function returned nil *)
+    (fix go (l : list gval) (acc : bool) : res gval :=
+       match l with
+       | [] => RRet (VErr acc)
+       | VNil :: r => go r acc
+       | VErr b :: r => go r (acc || b)
+       | _ => RFail "g.Wait"
+       end) args false
+  else if f =? "NewMetricsTimer" then RRet (VRec [("start", VZ 0)])
+  else if f =? "errgroup.WithContext" then match args with [c] => RRet (VTuple [VUnit; c]) | _ => RFail "errgroup.WithContext" end
   else if f =? "time.Since" then
     match args, lookup globals "$now" with
     | [VZ start], Some (VZ now) => RRet (VZ (now - start))
@@ -459,6 +504,12 @@ Definition arith (o : binop) (a b : gval) : res gval :=
   | OMul, VZ x, VZ y => RRet (VZ (x * y))
   | OEq, VBool x, VBool y => RRet (VBool (Bool.eqb x y))
   | OAdd, VStr x, VStr y => RRet (VStr (x ++ y))
+  (* comparison with nil: the literal nil is recognised by its constructor, so that the nil-ness [p] of the other side
+     may stay symbolic (no match on it) *)
+  | OEq, x, VNil => match is_nil x with Some p => RRet (VBool p) | None => RFail "==" end
+  | OEq, VNil, y => match is_nil y with Some p => RRet (VBool p) | None => RFail "==" end
+  | ONe, x, VNil => match is_nil x with Some p => RRet (VBool (negb p)) | None => RFail "!=" end
+  | ONe, VNil, y => match is_nil y with Some p => RRet (VBool (negb p)) | None => RFail "!=" end
   | OEq, x, y =>
       match is_nil x, is_nil y with
       | Some p, Some true => RRet (VBool p)
@@ -552,6 +603,29 @@ Definition eff_meth (v : gval) (m : string) (args : list gval) : option (res (gv
       then Some (RIf (old =? iw_di w)%N (RRet (VBool true, [VEff "publish" [VN new]])) (RRet (VBool false, [])))
       else None
   | _, _ => None
+  end.
+(* a call to a scripted collaborator (VOrc, or an object's untranslated method through its "$orc" field): the answer
+   is chosen by how many calls of this method the log already holds, and the call joins the log *)
+Definition count_eff (w : string) (lg : list gval) : nat :=
+  length (filter (fun e => match e with VEff x _ => x =? w | _ => false end) lg).
+Definition orc_of (v : gval) : option (string * list (string * list gval)) :=
+  match v with
+  | VOrc n a => Some (n, a)
+  | VObj _ fields => match lookup fields "$orc" with Some (VOrc n a) => Some (n, a) | _ => None end
+  | _ => None
+  end.
+Definition orc_meth (v : gval) (m : string) (args lg : list gval) : option (gval * gval) :=
+  match orc_of v with
+  | Some (n, a) =>
+      match lookup a m with
+      | Some l => let w := String.append n (String.append "." m) in
+                  match nth_error l (count_eff w lg) with
+                  | Some r => Some (r, VEff w args)
+                  | None => None
+                  end
+      | None => None
+      end
+  | None => None
   end.
 (* binary.LittleEndian.PutUint64(b, v): the bytes of slice variable b become v *)
 Definition put_le (m : string) (args : list gval) : option (nat * gval) :=
@@ -763,7 +837,15 @@ with exec (fuel : nat) (fs : list (string * gfun)) (globals en : env) (lg : list
                       | Some b => exec fuel' fs globals (b ++ en) (rev (snd re) ++ lg) rest
                       | None => RFail "assignment arity"
                       end)
-                | None => assign_pure xs (EMeth a m args)
+                | None =>
+                  match orc_meth v m vs lg with
+                  | Some (result, eff) =>
+                      match bind_result xs result with
+                      | Some b => exec fuel' fs globals (b ++ en) (eff :: lg) rest
+                      | None => RFail "assignment arity"
+                      end
+                  | None => assign_pure xs (EMeth a m args)
+                  end
                 end
               end
             end))
@@ -793,6 +875,8 @@ with exec (fuel : nat) (fs : list (string * gfun)) (globals en : env) (lg : list
           match lookup en x with
           | Some (VObj ty fields) =>
               bind (ev e) (fun v => exec fuel' fs globals ((x, VObj ty ((f, v) :: fields)) :: en) lg rest)
+          | Some (VRec fields) =>
+              bind (ev e) (fun v => exec fuel' fs globals ((x, VRec ((f, v) :: fields)) :: en) lg rest)
           | _ => RFail ("field assignment to " ++ x)
           end
       | SIf (i :: init) c t e => exec fuel' fs globals en lg (i :: SIf init c t e :: rest)
@@ -824,7 +908,11 @@ with exec (fuel : nat) (fs : list (string * gfun)) (globals en : env) (lg : list
                   | Some (Some x) => exec fuel' fs globals ((x, nv) :: en) lg rest
                   | _ => RFail "PutUint64 into something that is not a variable"
                   end
-              | None => bind (ev (EMeth a m args)) (fun _ => exec fuel' fs globals en lg rest)   (* a pure call, result dropped *)
+              | None =>
+                match orc_meth v m vs lg with
+                | Some (_, eff) => exec fuel' fs globals en (eff :: lg) rest
+                | None => bind (ev (EMeth a m args)) (fun _ => exec fuel' fs globals en lg rest)   (* a pure call, result dropped *)
+                end
               end
             end))
       | SExpr e => bind (ev e) (fun _ => exec fuel' fs globals en lg rest)
